@@ -143,6 +143,14 @@ class VectorContainer:
                 f"Attribute with name '{name}' already defined in current object"
             )
 
+        # Variables are stored in the object's `__dict__` under '_' + name (and
+        # the object's own bookkeeping lives there, too): an attribute of the
+        # same name would replace the variable's array
+        if name in self.__dict__:
+            raise DuplicateNameError(
+                f"Name '{name}' is already in use in current object e.g. to store a variable's values"
+            )
+
         super().__setattr__(name, value)
         self.__dict__['_attributes'].append(name)
 
